@@ -1652,6 +1652,161 @@ theorem returned_action_valid (t : Tree) (H : Nat) (hA : 0 < t.nA []) :
 
 /-! ### rPOMCP (max-of-belief): horizon and counts -/
 
+/-! ### The statements at full strength for the source as it is now
+
+  `tools/extract_c19.py` regenerates `Gen.C19` from the headers on every run; `source_rollout_repaired` is re-checked
+  against it (a regression of the rollout length or of POMCP's guard breaks this proof obligation). -/
+
+/-- the rollout length read from MCTS.hpp / POMCP.hpp is at most `maxDepth_ - depth - 1`, and POMCP's rollout is guarded -/
+theorem source_rollout_repaired :
+    Gen.C19.mctsRollOff ≤ -1 ∧ Gen.C19.pomcpRollOff ≤ -1 ∧ Gen.C19.pomcpRollGuard = true := by decide
+
+/-- `m` carries the facts read from the source -/
+def AsSource (m : Mdl) : Prop :=
+  m.rollOff = (if m.pomcp then Gen.C19.pomcpRollOff else Gen.C19.mctsRollOff) ∧
+  (m.pomcp = true → m.rollGuard = Gen.C19.pomcpRollGuard)
+
+theorem AsSource.off {m : Mdl} (h : AsSource m) : m.rollOff ≤ -1 := by
+  obtain ⟨h1, h2, _⟩ := source_rollout_repaired
+  rw [h.1]; split <;> assumption
+
+/-- **depth_le_horizon, for MCTS and POMCP as they are in the source now**: every simulation of every public call, in
+    every history, is a chain of at most `horizon` calls of the generative model. -/
+theorem depth_le_horizon_current {m : Mdl} (hm : AsSource m) {t t' : Tree} {op : Op} {log rest : List Step} (h : Reach m t)
+    (hc : call m t op log = some (t', rest)) (hH : 0 < op.H) :
+    ∃ useds : List (List Step), log = useds.flatten ++ rest ∧ useds.length = op.iters ∧ ∀ u ∈ useds, u.length ≤ op.H :=
+  depth_le_horizon hm.off h hc hH
+
+/-- **v_in_return_range, as in the property, for the source now** (fresh call with horizon `H`) -/
+theorem v_in_return_range_fresh_current {m : Mdl} {rmin rmax : Rat} (hb : Bnd m rmin rmax) (hm : AsSource m) {t t' : Tree}
+    {parts : List Nat} {nA H iters : Nat} {log rest : List Step} (h : Reach m t) (hH : 0 < H)
+    (hc : call m t (Op.fresh parts nA H iters) log = some (t', rest)) (q : Path) (a : Nat) (hN : 0 < t'.aN q a) :
+    loR m.gamma rmin (H - q.length) ≤ t'.aV q a ∧ t'.aV q a ≤ hiR m.gamma rmax (H - q.length) :=
+  v_in_return_range_fresh hb hm.off h hH hc q a hN
+
+/-- **v_in_return_range for any history with horizons ≤ h, for the source now**: range of `h - depth` steps -/
+theorem v_in_return_range_history_current {m : Mdl} {rmin rmax : Rat} (hb : Bnd m rmin rmax) (hm : AsSource m) {h : Nat}
+    {t : Tree} (hr : ReachH m h t) (q : Path) (a : Nat) (hN : 0 < t.aN q a) :
+    loR m.gamma rmin (h - q.length) ≤ t.aV q a ∧ t.aV q a ≤ hiR m.gamma rmax (h - q.length) := by
+  have := v_in_return_range_history hb hr q a hN
+  have h0 : m.overrun = 0 := by have := hm.off; unfold Mdl.overrun; omega
+  rw [h0] at this
+  simpa using this
+
+/-- **no simulation past a terminal state, for the source now** (MCTS and POMCP) -/
+theorem no_simulation_past_terminal_current {m : Mdl} (hm : AsSource m) {H : Nat} {t t' : Tree} {p : Path} {s depth : Nat}
+    {used : List Step} {r : Rat} (h : Sim m H t p s depth used t' r) : NoCont used :=
+  no_simulation_past_terminal_as_extracted hm.2 (fun _ => source_rollout_repaired.2.2) h
+
+/-! ### The action selection of `simulate` (`findBestBonusA`) -/
+
+theorem XRat.lt_trans' : ∀ {a b c : XRat}, XRat.lt a b = true → XRat.lt b c = true → XRat.lt a c = true := by
+  intro a b c h1 h2
+  cases a <;> cases b <;> cases c <;> simp_all [XRat.lt]
+  exact lt_trans h1 h2
+
+theorem firstBestX_lt (sc : Nat → XRat) : ∀ n, 0 < n → firstBestX sc n < n := by
+  intro n
+  induction n with
+  | zero => intro h; omega
+  | succ n ih =>
+    intro _
+    simp only [firstBestX]
+    split
+    · omega
+    · by_cases hn : n = 0
+      · subst hn; simp [firstBestX]
+      · have := ih (by omega); omega
+
+/-- **the scan ends on an action whose score no other score beats** (IEEE `>`; with finite scores: a maximiser) -/
+theorem firstBestX_best (sc : Nat → XRat) : ∀ n b, b < n → XRat.gt (sc b) (sc (firstBestX sc n)) = false := by
+  intro n
+  induction n with
+  | zero => intro b h; omega
+  | succ n ih =>
+    intro b hb
+    simp only [firstBestX]
+    by_cases hbn : b = n
+    · subst hbn
+      split
+      · cases hx : sc b <;> simp [XRat.gt, XRat.lt]
+      · rename_i h; simpa using h
+    · have hb' := ih b (by omega)
+      split
+      · rename_i hgt
+        -- sc n > sc old, and not (sc b > sc old): then not (sc b > sc n)
+        cases hr : XRat.gt (sc b) (sc n) with
+        | false => rfl
+        | true =>
+          exfalso
+          have h1 : XRat.lt (sc (firstBestX sc n)) (sc n) = true := hgt
+          have h2 : XRat.lt (sc n) (sc b) = true := hr
+          have := XRat.lt_trans' h1 h2
+          have h3 : XRat.gt (sc b) (sc (firstBestX sc n)) = true := this
+          rw [hb'] at h3; simp at h3
+      · exact hb'
+
+/-- exploration constant > 0: an untried action scores `+inf`, a tried one a finite value; then the scan takes the first
+    untried action as long as there is one (this was an assumption of the model in round 1; now a consequence) -/
+theorem firstBestX_untried (sc : Nat → XRat) (un : Nat → Bool)
+    (h1 : ∀ b, un b = true → sc b = .pinf) (h2 : ∀ b, un b = false → ∃ q, sc b = .fin q) :
+    ∀ n u, u < n → un u = true → (∀ b, b < u → un b = false) → firstBestX sc n = u := by
+  intro n
+  induction n with
+  | zero => intro u h; omega
+  | succ n ih =>
+    intro u hu hun hfirst
+    simp only [firstBestX]
+    by_cases hun' : u = n
+    · subst hun'
+      by_cases hn0 : u = 0
+      · subst hn0; simp [firstBestX, h1 0 hun, XRat.gt, XRat.lt]
+      · have hlt := firstBestX_lt sc u (by omega)
+        obtain ⟨q, hq⟩ := h2 _ (hfirst _ hlt)
+        simp [h1 u hun, hq, XRat.gt, XRat.lt]
+    · have := ih u (by omega) hun hfirst
+      rw [this, h1 u hun]
+      cases hx : sc n <;> simp [XRat.gt, XRat.lt]
+
+/-- exploration constant 0: an untried action scores `NaN`; if action 0 is untried the scan never leaves it -/
+theorem firstBestX_nan0 (sc : Nat → XRat) (h0 : sc 0 = .nan) : ∀ n, firstBestX sc n = 0 := by
+  intro n
+  induction n with
+  | zero => rfl
+  | succ n ih =>
+    simp only [firstBestX, ih, h0]
+    cases hx : sc n <;> simp [XRat.gt, XRat.lt]
+
+/-- **the action chosen in `simulate` is the one the `findBestBonusA` scan selects on the modelled scores
+    `V(b) + bonus(N+1, N(b))`, and no action has a greater score** (strict rule, `uctSlack = none`) -/
+theorem simulate_choice_is_uct {m : Mdl} {H fuel : Nat} {t t' : Tree} {p : Path} {s depth : Nat} {st : Step}
+    {log rest : List Step} {r : Rat} (hs : m.uctSlack = none)
+    (h : simulate m H (fuel + 1) t p s depth (st :: log) = some (t', r, rest)) :
+    st.a = uctPick m (t.nN p + 1) (t.nA p) (t.aN p) (t.aV p) ∧ st.a < t.nA p ∧
+    ∀ b, b < t.nA p → XRat.gt (uctScore m (t.nN p + 1) (t.aN p) (t.aV p) b) (uctScore m (t.nN p + 1) (t.aN p) (t.aV p) st.a) = false := by
+  simp only [simulate] at h
+  split at h
+  · rename_i hc
+    simp only [Bool.and_eq_true, decide_eq_true_eq] at hc
+    obtain ⟨⟨⟨_, ha⟩, _⟩, hu⟩ := hc
+    have hpick : st.a = uctPick m (t.nN p + 1) (t.nA p) (t.aN p) (t.aV p) := by
+      simpa [uctOk, uctOkGen, hs] using hu
+    refine ⟨hpick, ha, fun b hb => ?_⟩
+    rw [hpick]
+    exact firstBestX_best _ _ b hb
+  · simp at h
+
+/-- the real-arithmetic shape of the bonus, with `log`/`sqrt` abstract: for any monotone `sqrtF` and `L ≥ 0`, `c ≥ 0`, the
+    bonus `c · sqrtF (L / n)` does not increase with the action's visit count — among equally valued actions the scan
+    prefers the less visited one -/
+theorem bonus_antitone (sqrtF : Rat → Rat) (hmono : ∀ x y, x ≤ y → sqrtF x ≤ sqrtF y) (c L : Rat) (hc : 0 ≤ c) (hL : 0 ≤ L)
+    (n n' : Nat) (hn : 0 < n) (hnn : n ≤ n') : c * sqrtF (L / (n' : Rat)) ≤ c * sqrtF (L / (n : Rat)) := by
+  apply mul_le_mul_of_nonneg_left _ hc
+  apply hmono
+  have h1 : (0 : Rat) < (n : Rat) := by exact_mod_cast hn
+  have h2 : (n : Rat) ≤ (n' : Rat) := by exact_mod_cast hnn
+  exact div_le_div_of_nonneg_left hL h1 h2
+
 namespace R
 
 theorem rup_fields (m : Mdl) (k : Nat) (t : RTree) (p : Path) (a depth : Nat) (imm : Rat) :
@@ -1662,9 +1817,9 @@ theorem rup_fields (m : Mdl) (k : Nat) (t : RTree) (p : Path) (a depth : Nat) (i
   dsimp only
   split <;> exact ⟨rfl, rfl, rfl, rfl⟩
 
-theorem rdown_fields (t : RTree) (p : Path) (st : Step) :
-    (rdown t p st).1.nN = upd t.nN p (t.nN p + 1) ∧ (rdown t p st).1.nA = t.nA ∧ (rdown t p st).1.stops = t.stops ∧
-    (rdown t p st).1.aN = t.aN := by
+theorem rdown_fields (m : Mdl) (t : RTree) (p : Path) (st : Step) :
+    (rdown m t p st).1.nN = upd t.nN p (t.nN p + 1) ∧ (rdown m t p st).1.nA = t.nA ∧ (rdown m t p st).1.stops = t.stops ∧
+    (rdown m t p st).1.aN = t.aN := by
   unfold rdown RTree.updBK
   simp only
   split <;> exact ⟨rfl, rfl, rfl, rfl⟩
@@ -1726,9 +1881,9 @@ theorem rsim_spec (m : Mdl) (H k : Nat) : ∀ (fuel : Nat) (t : RTree) (p : Path
       · rename_i hc
         simp only [Bool.and_eq_true, decide_eq_true_eq] at hc
         obtain ⟨⟨⟨hs, ha⟩, _⟩, _⟩ := hc
-        obtain ⟨d1, d2, d3, d4⟩ := rdown_fields t p st
+        obtain ⟨d1, d2, d3, d4⟩ := rdown_fields m t p st
         -- the invariant after `rdown`
-        have hdown : ∀ pend, RCnt pend t → RCnt (upd pend p (pend p + 1)) (rdown t p st).1 := by
+        have hdown : ∀ pend, RCnt pend t → RCnt (upd pend p (pend p + 1)) (rdown m t p st).1 := by
           intro pend hI
           refine ⟨fun q => ?_, fun q a hqa => ?_⟩
           · rw [d1, d2, d3, d4]
@@ -1807,23 +1962,23 @@ theorem rsim_spec (m : Mdl) (H k : Nat) : ∀ (fuel : Nat) (t : RTree) (p : Path
             refine ⟨⟨[st], rfl, by simp; omega, ⟨hs, trivial⟩⟩, fun pend hI => ?_, fun q => ?_, ?_, ?_, fun q hq => ?_⟩
             rotate_left 2
             · rw [(rup_fields m k _ p st.a depth _).2.2.1]
-              show upd (rdown t p st).1.stops _ _ [] = _
+              show upd (rdown m t p st).1.stops _ _ [] = _
               simp only [upd, hne0, if_false]; rw [d3]
             · rw [(rup_fields m k _ p st.a depth _).1]
-              show upd (rdown t p st).1.nN _ _ p = _
+              show upd (rdown m t p st).1.nN _ _ p = _
               simp only [upd, hnep, if_false]; rw [d1]; simp [upd]
             · have hne : q ≠ p := fun h => hq (h ▸ List.prefix_refl _)
               have hqc : q ≠ p ++ [(st.a, st.o)] := fun h => hq (h ▸ List.prefix_append _ _)
               rw [(rup_fields m k _ p st.a depth _).1]
-              show upd (rdown t p st).1.nN _ _ q = _
+              show upd (rdown m t p st).1.nN _ _ q = _
               simp only [upd, hqc, if_false]; rw [d1]; simp [upd, hne]
             · have h1 := hdown pend hI
-              have h2 : RCnt (upd pend p (pend p + 1)) (rleaf (rdown t p st).1 (p ++ [(st.a, st.o)])) := by
+              have h2 : RCnt (upd pend p (pend p + 1)) (rleaf (rdown m t p st).1 (p ++ [(st.a, st.o)])) := by
                 refine ⟨fun q => ?_, fun q a hqa => h1.out q a hqa⟩
                 have hc := h1.cnt q
-                show upd (rdown t p st).1.nN (p ++ [(st.a, st.o)]) ((rdown t p st).1.nN (p ++ [(st.a, st.o)]) + 1) q
-                  = sumTo ((rdown t p st).1.aN q) ((rdown t p st).1.nA q)
-                    + upd (rdown t p st).1.stops (p ++ [(st.a, st.o)]) ((rdown t p st).1.stops (p ++ [(st.a, st.o)]) + 1) q
+                show upd (rdown m t p st).1.nN (p ++ [(st.a, st.o)]) ((rdown m t p st).1.nN (p ++ [(st.a, st.o)]) + 1) q
+                  = sumTo ((rdown m t p st).1.aN q) ((rdown m t p st).1.nA q)
+                    + upd (rdown m t p st).1.stops (p ++ [(st.a, st.o)]) ((rdown m t p st).1.stops (p ++ [(st.a, st.o)]) + 1) q
                     + upd pend p (pend p + 1) q
                 by_cases hq : q = p ++ [(st.a, st.o)]
                 · subst hq
@@ -1833,9 +1988,9 @@ theorem rsim_spec (m : Mdl) (H k : Nat) : ∀ (fuel : Nat) (t : RTree) (p : Path
                 · simp only [upd, hq, if_false]
                   simp only [upd] at hc
                   exact hc
-              exact hup _ _ pend h2 (by show st.a < (rdown t p st).1.nA p; rw [d2]; exact ha)
+              exact hup _ _ pend h2 (by show st.a < (rdown m t p st).1.nA p; rw [d2]; exact ha)
             · rw [(rup_fields m k _ p st.a depth _).2.1]
-              left; show (rdown t p st).1.nA q = t.nA q; rw [d2]
+              left; show (rdown m t p st).1.nA q = t.nA q; rw [d2]
       · simp at h
 
 /-- `n` simulations from the root -/
@@ -1878,8 +2033,7 @@ theorem rcall_fresh_spec (m : Mdl) (k : Nat) (t t' : RTree) (support : List Nat)
     (∃ useds : List (List Step), log = useds.flatten ++ rest ∧ useds.length = iters ∧ ∀ u ∈ useds, u.length ≤ H ∧ ∃ s, IsChain s u) ∧
     t'.nN [] = iters ∧ t'.nN [] = sumTo (t'.aN []) (t'.nA []) ∧
     ∀ q, t'.nN q = sumTo (t'.aN q) (t'.nA q) + t'.stops q := by
-  unfold rcall at hc
-  simp only at hc
+  simp only [rcall, rprepare] at hc
   split at hc
   · omega
   · split at hc
@@ -1902,16 +2056,389 @@ theorem rcall_fresh_spec (m : Mdl) (k : Nat) (t t' : RTree) (support : List Nat)
         show t1.nN q = sumTo (t1.aN q) (t1.nA q) + t1.stops q
         simpa using this
 
+/-! #### rPOMCP: action values are means of the datapoints passed upwards; the knowledge measure; promotion -/
+
+theorem rup_mean_fields (m : Mdl) (k : Nat) (t : RTree) (p : Path) (a depth : Nat) (imm : Rat) :
+    (rup m k t p a depth imm).1.aN = upd t.aN p (updN (t.aN p) a (t.aN p a + 1)) ∧
+    (rup m k t p a depth imm).1.aV = upd t.aV p (updN (t.aV p) a (t.aV p a + (imm - t.aV p a) / ((t.aN p a + 1 : Nat) : Rat))) ∧
+    (rup m k t p a depth imm).1.dps = upd t.dps p (updN (t.dps p) a (imm :: t.dps p a)) := by
+  unfold rup
+  dsimp only
+  split <;> exact ⟨rfl, rfl, rfl⟩
+
+theorem rdown_mean_fields (m : Mdl) (t : RTree) (p : Path) (st : Step) :
+    (rdown m t p st).1.aN = t.aN ∧ (rdown m t p st).1.aV = t.aV ∧ (rdown m t p st).1.dps = t.dps := by
+  unfold rdown RTree.updBK
+  simp only
+  split <;> exact ⟨rfl, rfl, rfl⟩
+
+theorem ralloc_mean {t t1 : RTree} {p : Path} {n : Nat} (h : t.alloc p n = some t1) :
+    t1.aN = t.aN ∧ t1.aV = t.aV ∧ t1.dps = t.dps := by
+  unfold RTree.alloc at h
+  split at h
+  · simp at h; subst h; exact ⟨rfl, rfl, rfl⟩
+  · split at h
+    · simp at h; subst h; exact ⟨rfl, rfl, rfl⟩
+    · simp at h
+
+/-- every action value is the mean of the datapoints (`dps`) that were averaged into it, its count their number -/
+structure RMean (t : RTree) : Prop where
+  len : ∀ q a, t.aN q a = (t.dps q a).length
+  avg : ∀ q a, t.aV q a = mean (t.dps q a)
+
+theorem RMean.of_eq {t t1 : RTree} (h : RMean t) (e1 : t1.aN = t.aN) (e2 : t1.aV = t.aV) (e3 : t1.dps = t.dps) : RMean t1 :=
+  ⟨fun q a => by rw [e1, e3]; exact h.len q a, fun q a => by rw [e2, e3]; exact h.avg q a⟩
+
+theorem RMean.rup {t : RTree} (h : RMean t) (m : Mdl) (k : Nat) (p : Path) (a depth : Nat) (imm : Rat) :
+    RMean (rup m k t p a depth imm).1 := by
+  obtain ⟨u1, u2, u3⟩ := rup_mean_fields m k t p a depth imm
+  refine ⟨fun q b => ?_, fun q b => ?_⟩
+  · rw [u1, u3]
+    by_cases hq : q = p
+    · subst hq
+      simp only [upd, if_true]
+      by_cases hb : b = a
+      · subst hb; simp [updN, h.len]
+      · simp [updN, hb, h.len]
+    · simp only [upd, hq, if_false]; exact h.len q b
+  · rw [u2, u3]
+    by_cases hq : q = p
+    · subst hq
+      simp only [upd, if_true]
+      by_cases hb : b = a
+      · subst hb
+        simp only [updN, if_true]
+        rw [mean_cons, h.avg q b, h.len q b]
+      · simp only [updN, hb, if_false]; exact h.avg q b
+    · simp only [upd, hq, if_false]; exact h.avg q b
+
+/-- **rPOMCP: every `simulate` call keeps "V(a) = mean of the datapoints sampled through a"** -/
+theorem rsim_mean (m : Mdl) (H k : Nat) : ∀ (fuel : Nat) (t : RTree) (p : Path) (s depth : Nat) (log : List Step)
+    (t' : RTree) (r : Rat) (rest : List Step),
+    rsim m H k fuel t p s depth log = some (t', r, rest) → RMean t → RMean t' := by
+  intro fuel
+  induction fuel with
+  | zero => intro t p s depth log t' r rest h; simp [rsim] at h
+  | succ fuel ih =>
+    intro t p s depth log t' r rest h hI
+    cases log with
+    | nil => simp [rsim] at h
+    | cons st log =>
+      simp only [rsim] at h
+      split at h
+      · obtain ⟨d1, d2, d3⟩ := rdown_mean_fields m t p st
+        have hd : RMean (rdown m t p st).1 := hI.of_eq d1 d2 d3
+        split at h
+        · simp at h
+        · rename_i t3 imm log' hr
+          simp at h
+          obtain ⟨rfl, rfl, rfl⟩ := h
+          split at hr
+          · split at hr
+            · simp at hr
+            · rename_i t2 hal
+              obtain ⟨a1, a2, a3⟩ := ralloc_mean hal
+              exact (ih _ _ _ _ _ _ _ _ hr (hd.of_eq a1 a2 a3)).rup m k p st.a depth imm
+          · simp at hr
+            obtain ⟨rfl, _, rfl⟩ := hr
+            exact (hd.of_eq (t1 := rleaf (rdown m t p st).1 (p ++ [(st.a, st.o)])) rfl rfl rfl).rup m k p st.a depth _
+      · simp at h
+
+theorem rrunSims_mean (m : Mdl) (H k : Nat) : ∀ (n : Nat) (t : RTree) (log : List Step) (t' : RTree) (rest : List Step),
+    rrunSims m H k n t log = some (t', rest) → RMean t → RMean t' := by
+  intro n
+  induction n with
+  | zero => intro t log t' rest h hI; simp [rrunSims] at h; obtain ⟨rfl, _⟩ := h; exact hI
+  | succ n ih =>
+    intro t log t' rest h hI
+    cases log with
+    | nil => simp [rrunSims] at h
+    | cons st log =>
+      simp only [rrunSims] at h
+      split at h
+      · split at h
+        · simp at h
+        · rename_i t1 r log' hsim
+          exact ih _ _ _ _ h (rsim_mean m H k _ _ _ _ _ _ _ _ _ hsim hI)
+      · simp at h
+
+theorem RMean.fresh (support : List Nat) (nA : Nat) : RMean (RTree.fresh support nA) :=
+  ⟨fun _ _ => rfl, fun _ _ => by show (0 : Rat) = mean []; rw [mean_nil]⟩
+
+theorem RMean.reroot {t : RTree} (h : RMean t) (k : Key) : RMean (t.reroot k) :=
+  ⟨fun q a => h.len (k :: q) a, fun q a => h.avg (k :: q) a⟩
+
+/-- trees reachable by any history of public rPOMCP calls -/
+inductive RReach (m : Mdl) (k : Nat) : RTree → Prop
+  | init : RReach m k (RTree.fresh [] 0)
+  | call (t t' : RTree) (op : Op) (log rest : List Step) : RReach m k t → rcall m k t op log = some (t', rest) → RReach m k t'
+
+theorem rprepare_mean {t t0 : RTree} {op : Op} {H iters : Nat} (h : RMean t) (hp : rprepare t op = some (t0, H, iters)) : RMean t0 := by
+  cases op with
+  | fresh parts nA H' iters' =>
+    simp [rprepare] at hp
+    obtain ⟨rfl, _, _⟩ := hp
+    exact RMean.fresh parts nA
+  | adv a o parts nA H' iters' =>
+    simp only [rprepare] at hp
+    split at hp
+    · split at hp
+      · cases hal : (t.reroot (a, o)).alloc [] nA with
+        | none => simp [hal] at hp
+        | some t1 =>
+          simp [hal] at hp
+          obtain ⟨rfl, _, _⟩ := hp
+          obtain ⟨a1, a2, a3⟩ := ralloc_mean hal
+          exact (h.reroot (a, o)).of_eq a1 a2 a3
+      · simp at hp
+        obtain ⟨rfl, _, _⟩ := hp
+        exact RMean.fresh parts nA
+    · simp at hp
+
+/-- **rPOMCP v_is_mean**: after any history of public calls (both knowledge measures), every action value is the mean
+    of exactly the datapoints its simulations passed upwards, and its count is their number -/
+theorem v_is_mean {m : Mdl} {k : Nat} {t : RTree} (h : RReach m k t) (q : Path) (a : Nat) :
+    t.aN q a = (t.dps q a).length ∧ t.aV q a = mean (t.dps q a) := by
+  have hI : RMean t := by
+    induction h with
+    | init => exact RMean.fresh [] 0
+    | call t t' op log rest _ hc ih =>
+      unfold rcall at hc
+      split at hc
+      · simp at hc
+      · rename_i t0 H iters hp
+        have h0 := rprepare_mean ih hp
+        split at hc
+        · simp at hc; obtain ⟨rfl, _⟩ := hc; exact h0
+        · split at hc
+          · simp at hc
+          · rename_i t1 rest' hr
+            simp at hc
+            obtain ⟨rfl, _⟩ := hc
+            exact (rrunSims_mean m H k _ _ _ _ _ hr h0).of_eq rfl rfl rfl
+  exact ⟨hI.len q a, hI.avg q a⟩
+
+theorem max_upd_aux (f : Nat → Nat) (ms s : Nat) (h : ∀ x, f x ≤ f ms) (x : Nat) :
+    updN f s (f s + 1) x ≤ updN f s (f s + 1) (if updN f s (f s + 1) ms < f s + 1 then s else ms) := by
+  have hx := h x
+  have hs := h s
+  simp only [updN]
+  by_cases h1 : ms = s
+  · subst h1
+    by_cases h2 : x = ms
+    · subst h2; simp
+    · simp [h2]; omega
+  · by_cases h3 : f ms < f s + 1
+    · simp only [h1, if_false, h3, if_true]
+      by_cases h2 : x = s
+      · simp [h2]
+      · simp [h2]; omega
+    · simp only [h1, if_false, h3]
+      by_cases h2 : x = s
+      · simp [h2]; omega
+      · simp [h2]; omega
+
+/-- **knowledge-measure update, max-of-belief**: `updateBeliefAndKnowledge(s)` counts the particle, keeps `maxS_` a most
+    frequent particle type and sets the measure to `count(maxS_) / (N + 1)` -/
+theorem updBK_max_spec (m : Mdl) (hm : m.entropy = false) (t : RTree) (p : Path) (s : Nat)
+    (hinv : ∀ x, t.tb p x ≤ t.tb p (t.maxS p)) :
+    (t.updBK m p s).tb p = updN (t.tb p) s (t.tb p s + 1) ∧
+    (∀ x, (t.updBK m p s).tb p x ≤ (t.updBK m p s).tb p ((t.updBK m p s).maxS p)) ∧
+    (t.updBK m p s).km p = (((t.updBK m p s).tb p ((t.updBK m p s).maxS p) : Nat) : Rat) / ((t.nN p + 1 : Nat) : Rat) ∧
+    (∀ q, q ≠ p → (t.updBK m p s).tb q = t.tb q ∧ (t.updBK m p s).km q = t.km q) := by
+  have e1 : (t.updBK m p s).tb p = updN (t.tb p) s (t.tb p s + 1) := by simp [RTree.updBK, upd]
+  have e2 : (t.updBK m p s).maxS p
+      = if updN (t.tb p) s (t.tb p s + 1) (t.maxS p) < t.tb p s + 1 then s else t.maxS p := by
+    simp [RTree.updBK, upd, hm]
+  have e3 : (t.updBK m p s).km p = ((updN (t.tb p) s (t.tb p s + 1)
+      (if updN (t.tb p) s (t.tb p s + 1) (t.maxS p) < t.tb p s + 1 then s else t.maxS p) : Nat) : Rat) / ((t.nN p + 1 : Nat) : Rat) := by
+    simp [RTree.updBK, upd, hm]
+  refine ⟨e1, fun x => ?_, ?_, fun q hq => ?_⟩
+  · rw [e1, e2]; exact max_upd_aux (t.tb p) (t.maxS p) s hinv x
+  · rw [e3, e1, e2]
+  · simp [RTree.updBK, upd, hq]
+
+/-- **knowledge-measure update, entropy**: the term of the particle type just seen is replaced by the new `p log p`,
+    the running sum is corrected by the difference; nothing else changes -/
+theorem updBK_ent_spec (m : Mdl) (hm : m.entropy = true) (t : RTree) (p : Path) (s : Nat) :
+    (t.updBK m p s).tb p s = t.tb p s + 1 ∧
+    (t.updBK m p s).negEnt p s = m.plogp (t.tb p s + 1) (t.nN p + 1) ∧
+    (t.updBK m p s).km p = t.km p - t.negEnt p s + m.plogp (t.tb p s + 1) (t.nN p + 1) ∧
+    (∀ x, x ≠ s → (t.updBK m p s).negEnt p x = t.negEnt p x ∧ (t.updBK m p s).tb p x = t.tb p x) := by
+  refine ⟨by simp [RTree.updBK, upd, updN], by simp [RTree.updBK, upd, updN, hm], by simp [RTree.updBK, upd, hm], fun x hx => ?_⟩
+  simp [RTree.updBK, upd, updN, hm, hx]
+
+/-! #### rPOMCP: the max-mode bookkeeping (`maxBeliefNodeUpdate`) keeps `actionsV` the maximum action value -/
+
+/-- **maxBeliefNodeUpdate / the `N == k_` switch**: once a node has been visited `k_` times its `actionsV` is the largest
+    action value and `bestAction` an action attaining it — also when the updated action's value went *down* (the
+    `else if (a == bestAction)` recomputation).  `t` is the tree after the action update of `a`; the hypothesis is the same
+    statement before that update (all other action values unchanged). -/
+theorem rbook_max_spec (k : Nat) (t : RTree) (p : Path) (a : Nat) (imm : Rat) (hk : k ≤ t.nN p) (hA : 0 < t.nA p)
+    (hprev : k < t.nN p → (∀ c, c < t.nA p → c ≠ a → t.aV p c ≤ t.actV p) ∧
+                          (t.best p ≠ a → t.actV p = t.aV p (t.best p) ∧ t.best p < t.nA p)) (ha : a < t.nA p) :
+    (rbook k t p a imm).1 = t.aV p (rbook k t p a imm).2.1 ∧ (rbook k t p a imm).2.1 < t.nA p ∧
+    ∀ c, c < t.nA p → t.aV p c ≤ (rbook k t p a imm).1 := by
+  unfold rbook
+  simp only [hk, if_true]
+  split
+  · exact ⟨rfl, argmaxV_lt _ _ hA, fun c hc => argmaxV_max _ _ c hc⟩
+  · rename_i hne
+    have hlt : k < t.nN p := by omega
+    obtain ⟨h1, h2⟩ := hprev hlt
+    split
+    · rename_i hge
+      refine ⟨rfl, ha, fun c hc => ?_⟩
+      by_cases hca : c = a
+      · subst hca; exact le_refl _
+      · exact le_trans (h1 c hc hca) hge
+    · rename_i hlt2
+      split
+      · exact ⟨rfl, argmaxV_lt _ _ hA, fun c hc => argmaxV_max _ _ c hc⟩
+      · rename_i hab
+        have hba : t.best p ≠ a := fun e => hab e.symm
+        obtain ⟨e1, e2⟩ := h2 hba
+        refine ⟨e1, e2, fun c hc => ?_⟩
+        by_cases hca : c = a
+        · subst hca; exact le_of_lt (not_le.mp hlt2)
+        · exact h1 c hc hca
+
+/-! #### rPOMCP entropy: the running knowledge measure is the sum of the stored `p log p` terms -/
+
+theorem sumQ_map_updN_not_mem (f : Nat → Rat) (s : Nat) (v : Rat) : ∀ l : List Nat, s ∉ l →
+    sumQ (l.map (updN f s v)) = sumQ (l.map f) := by
+  intro l
+  induction l with
+  | nil => intro _; rfl
+  | cons x xs ih =>
+    intro hs
+    simp only [List.mem_cons, not_or] at hs
+    have hx : x ≠ s := fun h => hs.1 h.symm
+    have hxv : updN f s v x = f x := by simp [updN, hx]
+    simp only [List.map_cons, sumQ]
+    rw [hxv, ih hs.2]
+
+theorem sumQ_map_updN_mem (f : Nat → Rat) (s : Nat) (v : Rat) : ∀ l : List Nat, l.Nodup → s ∈ l →
+    sumQ (l.map (updN f s v)) = sumQ (l.map f) - f s + v := by
+  intro l
+  induction l with
+  | nil => intro _ h; simp at h
+  | cons x xs ih =>
+    intro hnd hs
+    rw [List.nodup_cons] at hnd
+    by_cases hx : x = s
+    · subst hx
+      have hxv : updN f x v x = v := by simp [updN]
+      simp only [List.map_cons, sumQ]
+      rw [hxv, sumQ_map_updN_not_mem f x v xs hnd.1]
+      ring
+    · have hs' : s ∈ xs := by
+        simp only [List.mem_cons] at hs
+        rcases hs with h | h
+        · exact absurd h.symm hx
+        · exact h
+      have hxv : updN f s v x = f x := by simp [updN, hx]
+      simp only [List.map_cons, sumQ]
+      rw [hxv, ih hnd.2 hs']; ring
+
+theorem sumQ_append_single (l : List Rat) (x : Rat) : sumQ (l ++ [x]) = sumQ l + x := by
+  induction l with
+  | nil => simp [sumQ]
+  | cons y ys ih => simp only [List.cons_append, sumQ, ih]; ring
+
+/-- the entropy bookkeeping of one belief node: the particle types seen are listed once, unseen types hold no term,
+    and the running measure is exactly the sum of the stored terms -/
+structure KmSum (t : RTree) (p : Path) : Prop where
+  nodup : (t.keys p).Nodup
+  zero : ∀ x, x ∉ t.keys p → t.negEnt p x = 0
+  sum : t.km p = sumQ ((t.keys p).map (t.negEnt p))
+
+/-- **entropy knowledge measure**: `updateBeliefAndKnowledge` keeps `knowledgeMeasure_ = Σ_s negativeEntropy[s]`
+    (so the incremental `-= old; += new` never drifts from the stored terms, in exact arithmetic) -/
+theorem KmSum.updBK {m : Mdl} (hm : m.entropy = true) {t : RTree} {p : Path} (h : KmSum t p) (s : Nat) :
+    KmSum (t.updBK m p s) p := by
+  have ek : (t.updBK m p s).keys p = if (t.keys p).contains s then t.keys p else t.keys p ++ [s] := by
+    simp [RTree.updBK, upd]
+  have en : (t.updBK m p s).negEnt p = updN (t.negEnt p) s (m.plogp (t.tb p s + 1) (t.nN p + 1)) := by
+    simp [RTree.updBK, upd, hm]
+  have em : (t.updBK m p s).km p = t.km p - t.negEnt p s + m.plogp (t.tb p s + 1) (t.nN p + 1) := by
+    simp [RTree.updBK, upd, hm]
+  by_cases hc : s ∈ t.keys p
+  · have hc' : (t.keys p).contains s = true := by simpa using hc
+    rw [hc'] at ek
+    simp only [if_true] at ek
+    refine ⟨by rw [ek]; exact h.nodup, fun x hx => ?_, ?_⟩
+    · rw [ek] at hx
+      have hxs : x ≠ s := fun e => hx (e ▸ hc)
+      rw [en]; simp only [updN, hxs, if_false]; exact h.zero x hx
+    · rw [em, ek, en, sumQ_map_updN_mem _ _ _ _ h.nodup hc, h.sum]
+  · have hc' : (t.keys p).contains s = false := by simpa using hc
+    rw [hc'] at ek
+    simp only [Bool.false_eq_true, if_false] at ek
+    refine ⟨?_, fun x hx => ?_, ?_⟩
+    · rw [ek, List.nodup_append]
+      refine ⟨h.nodup, by simp, fun a ha b hb => ?_⟩
+      simp only [List.mem_singleton] at hb
+      subst hb
+      intro e; exact hc (e ▸ ha)
+    · rw [ek] at hx
+      simp only [List.mem_append, List.mem_singleton, not_or] at hx
+      rw [en]; simp only [updN, hx.2, if_false]; exact h.zero x hx.1
+    · rw [em, ek, en, List.map_append, List.map_cons, List.map_nil, sumQ_append_single,
+        sumQ_map_updN_not_mem _ _ _ _ hc, h.sum, h.zero s hc]
+      simp [updN]
+
+/-- **rPOMCP advance_keeps_subtree**: the tree the simulations of `sampleAction(a, o, horizon)` start from is exactly the
+    `(a, o)` child with everything below it (counts, values, particle maps, knowledge measures, bookkeeping), or a clean
+    fresh head node — the latter exactly when that child does not exist or holds no particle. -/
+theorem advance_keeps_subtree {t t0 : RTree} {a o : Nat} {parts : List Nat} {nA H iters H' iters' : Nat}
+    (hp : rprepare t (Op.adv a o parts nA H iters) = some (t0, H', iters')) :
+    (t.ex [(a, o)] = true ∧ ∀ q, t0.ex q = t.ex ((a, o) :: q) ∧ t0.nN q = t.nN ((a, o) :: q) ∧ t0.tb q = t.tb ((a, o) :: q) ∧
+        t0.km q = t.km ((a, o) :: q) ∧ t0.v q = t.v ((a, o) :: q) ∧ t0.actV q = t.actV ((a, o) :: q) ∧
+        t0.best q = t.best ((a, o) :: q) ∧ t0.aN q = t.aN ((a, o) :: q) ∧ t0.aV q = t.aV ((a, o) :: q) ∧
+        (t0.nA q = t.nA ((a, o) :: q) ∨ (q = [] ∧ t.nA [(a, o)] = 0 ∧ t0.nA [] = nA)))
+    ∨ t0 = RTree.fresh parts nA := by
+  simp only [rprepare] at hp
+  split at hp
+  · split at hp
+    · rename_i _ hc
+      simp only [Bool.and_eq_true] at hc
+      cases hal : (t.reroot (a, o)).alloc [] nA with
+      | none => simp [hal] at hp
+      | some t1 =>
+        simp [hal] at hp
+        obtain ⟨rfl, _, _⟩ := hp
+        left
+        refine ⟨hc.1, fun q => ?_⟩
+        unfold RTree.alloc at hal
+        split at hal
+        · rename_i hn
+          simp at hal; subst hal
+          exact ⟨rfl, rfl, rfl, rfl, rfl, rfl, rfl, rfl, rfl, Or.inl rfl⟩
+        · split at hal
+          · rename_i hn0
+            simp at hal; subst hal
+            refine ⟨rfl, rfl, rfl, rfl, rfl, rfl, rfl, rfl, rfl, ?_⟩
+            by_cases hq : q = []
+            · subst hq; right; exact ⟨rfl, hn0, by simp [upd]⟩
+            · left; simp only [upd, hq, if_false]; rfl
+          · simp at hal
+    · simp at hp
+      obtain ⟨rfl, _, _⟩ := hp
+      right; rfl
+  · simp at hp
+
 end R
 
 /-! ### Witnesses: the hypotheses are satisfiable, and the source's rollout length breaks the horizon -/
 
 /-- a two-action model, every reward 1, discount 1/2, never terminal, rollout length as in the source (`+ 1`) -/
-def exM : Mdl := { pomcp := false, gamma := 1/2, rollOff := 1, rollGuard := false, explPos := true, numA := fun _ => 2,
+def exM : Mdl := { pomcp := false, gamma := 1/2, rollOff := 1, rollGuard := false, bonus := fun _ _ => .nan, uctSlack := none, numA := fun _ => 2,
                    valid := fun st => st.r == 1 && !st.term }
 def exStep (a : Nat) : Step := { s := 0, a := a, s1 := 0, o := 0, r := 1, term := false }
-/-- horizon 2, two iterations: each simulation creates a leaf at depth 1 and rolls out 2 more steps -/
-def exLog : List Step := [exStep 0, exStep 0, exStep 1, exStep 0, exStep 1, exStep 0, exStep 0, exStep 1]
+/-- horizon 2, two iterations: the first creates a leaf at depth 1 and rolls out 3 more steps, the second descends into it.
+    (The bonus of `exM` is `NaN` everywhere, so the scan of `findBestBonusA` always stays on action 0.) -/
+def exLog : List Step := [exStep 0, exStep 1, exStep 0, exStep 1, exStep 0, exStep 0]
 def exOp : Op := Op.fresh [0] 2 2 2
 
 theorem exM_bnd : Bnd exM 1 1 := by
@@ -1921,9 +2448,9 @@ theorem exM_bnd : Bnd exM 1 1 := by
 
 /-- test (evaluation on literals): the example log is a run, the hypotheses of all theorems above are satisfiable
     by a non-trivial tree (root visited twice, both actions tried once) -/
-theorem ex_reach : ∃ t, Reach exM t ∧ t.nN [] = 2 ∧ t.aN [] 0 = 1 ∧ t.aN [] 1 = 1 ∧ t.ex [(0, 0)] = true := by
+theorem ex_reach : ∃ t, Reach exM t ∧ t.nN [] = 2 ∧ t.aN [] 0 = 2 ∧ t.nN [(0, 0)] = 1 ∧ t.ex [(0, 0)] = true := by
   have h : (call exM Tree.init exOp exLog).any
-      (fun x => x.1.nN [] == 2 && x.1.aN [] 0 == 1 && x.1.aN [] 1 == 1 && x.1.ex [(0, 0)] && x.2.isEmpty) = true := by decide
+      (fun x => x.1.nN [] == 2 && x.1.aN [] 0 == 2 && x.1.nN [(0, 0)] == 1 && x.1.ex [(0, 0)] && x.2.isEmpty) = true := by decide
   rw [Option.any_eq_true] at h
   obtain ⟨x, hx, hp⟩ := h
   simp only [Bool.and_eq_true, beq_iff_eq] at hp
@@ -1955,7 +2482,7 @@ theorem depth_le_horizon_counterexample :
 theorem v_in_return_range_counterexample :
     ∃ (t' : Tree) (r : Rat) (used : List Step), Sim exM 2 (Tree.fresh [0] 2 4) [] 0 0 used t' r ∧ hiR exM.gamma 1 2 < r := by
   have h : (simulate exM 2 3 (Tree.fresh [0] 2 4) [] 0 0 (exLog.take 4)).map (fun x => x.2.1) = some (15/8) := by
-    simp [simulate, descend, rollout, exLog, exStep, exM, Tree.fresh, Tree.incN, Tree.create, Tree.update, Mdl.key, Mdl.rollLen, uctOk, firstUntried]
+    simp [simulate, descend, rollout, exLog, exStep, exM, Tree.fresh, Tree.incN, Tree.create, Tree.update, Mdl.key, Mdl.rollLen, uctOk, uctOkGen, uctPick, firstBestX, uctScore, xadd, XRat.gt, XRat.lt]
     norm_num
   rw [Option.map_eq_some_iff] at h
   obtain ⟨⟨t', r, rest⟩, hx, hp⟩ := h
@@ -1967,7 +2494,7 @@ theorem v_in_return_range_counterexample :
 
 
 /-- POMCP as in the source: the rollout at a new leaf is not guarded -/
-def exP : Mdl := { pomcp := true, gamma := 1/2, rollOff := 1, rollGuard := false, explPos := true, numA := fun _ => 2,
+def exP : Mdl := { pomcp := true, gamma := 1/2, rollOff := 1, rollGuard := false, bonus := fun _ _ => .nan, uctSlack := none, numA := fun _ => 2,
                    valid := fun _ => true }
 def exT1 : Step := { s := 0, a := 0, s1 := 1, o := 0, r := 1, term := true }
 def exT2 : Step := { s := 1, a := 1, s1 := 1, o := 0, r := 1, term := true }
